@@ -1,8 +1,10 @@
 package migrate
 
-import "maps"
-
-import "go/types"
+import (
+	"go/ast"
+	"go/types"
+	"maps"
+)
 
 // transformNewSet transforms wire.NewSet to kessoku.Set.
 func (t *Transformer) transformNewSet(ws *WireNewSet, pkg *types.Package) (*KessokuSet, error) {
@@ -73,6 +75,22 @@ func (t *Transformer) transformElements(elements []WirePattern, pkg *types.Packa
 			// Flatten nested set elements into parent
 			result = append(result, nestedSet.Elements...)
 		case *WireBind:
+			// wire binds the interface to whatever provider of the implementation type is part of
+			// this element list, regardless of its name; only fall back to the New<Type> convention
+			// when the provider is not listed next to the binding.
+			if provider := t.findBoundProvider(we, elements); provider != nil {
+				result = append(result, &KessokuBind{
+					Interface: unwrapPointer(we.Interface),
+					Provider: &KessokuProvide{
+						FuncExpr:  t.funcRefExpr(provider.Func, pkg),
+						SourcePos: we.Pos,
+					},
+					SourcePos: we.Pos,
+				})
+
+				continue
+			}
+
 			transformed, err := t.transformBind(we, pkg)
 			if err != nil {
 				return nil, err
@@ -127,6 +145,52 @@ func (t *Transformer) collectBoundTypes(elements []WirePattern) map[string]bool 
 		}
 	}
 	return boundTypes
+}
+
+// findBoundProvider returns the provider function among elements whose first result is the
+// implementation type of the given wire.Bind, or nil if there is none.
+func (t *Transformer) findBoundProvider(wb *WireBind, elements []WirePattern) *WireProviderFunc {
+	implType := wb.Implementation
+	if ptr, ok := implType.(*types.Pointer); ok {
+		implType = ptr.Elem()
+	}
+
+	for _, elem := range elements {
+		wf, ok := elem.(*WireProviderFunc)
+		if !ok || wf.Func == nil {
+			continue
+		}
+
+		sig, ok := wf.Func.Type().(*types.Signature)
+		if !ok || sig.Results().Len() == 0 {
+			continue
+		}
+
+		if types.Identical(sig.Results().At(0).Type(), implType) {
+			return wf
+		}
+	}
+
+	return nil
+}
+
+// funcRefExpr builds a reference to fn (f, or pkg.f with the import registered) from fresh nodes,
+// the same way transformBind refers to a constructor.
+func (t *Transformer) funcRefExpr(fn *types.Func, pkg *types.Package) ast.Expr {
+	fnPkg := fn.Pkg()
+	if fnPkg == nil || fnPkg == pkg {
+		return ast.NewIdent(fn.Name())
+	}
+
+	pkgName := fnPkg.Name()
+	if t.tc != nil {
+		pkgName = t.tc.AddImport(fnPkg.Path(), fnPkg.Name())
+	}
+
+	return &ast.SelectorExpr{
+		X:   ast.NewIdent(pkgName),
+		Sel: ast.NewIdent(fn.Name()),
+	}
 }
 
 // isProviderBound checks if a provider function's output type is bound via wire.Bind.
